@@ -45,6 +45,7 @@ def handle : List String → Option String
   | ["c05.peaksegs", bits] =>
       let m := parseBits bits
       some s!"{showInts (adjStarts (peakSegs true 0 m).1)}|{showInts (adjEnds m.length (peakSegs true 0 m).2)}"
+  | ["c05.qbez"] => some (showInts quadBezierIdx)
   | ["c05.flatnonzero", bits] => some (showInts (flatnonzero (parseBits bits)))
   | ["c05.interp", nx, ny] => do
       let nx ← nx.toNat?; let ny ← ny.toNat?
